@@ -35,7 +35,7 @@ def _all_matches(ctx, rep):
     rep.describe("all-matches", "the matcher asks the regex engine for overlapping matches of "
                  "every registered pattern (necessary for completeness: a derivation may start "
                  "from any match)")
-    cm = ctx.mod("ctparse.ctparse")
+    cm = ctx.imod("ctparse.ctparse")
     f = cm.func("_match_regex")
     calls = [c for c in calls_in(f) if isinstance(c.func, ast.Attribute) and c.func.attr in ("finditer", "findall", "search", "match")]
     ok = False
@@ -55,8 +55,8 @@ def _all_matches(ctx, rep):
 
 
 def _trace(ctx, rep):
-    cm = ctx.mod("ctparse.ctparse")
-    pm = ctx.mod("ctparse.partial_parse")
+    cm = ctx.imod("ctparse.ctparse")
+    pm = ctx.imod("ctparse.partial_parse")
     f = cm.func("_ctparse")
     # the production loop: for NAME, ITEM in <...>.items(): ... X.apply_rule(ts, ITEM[0], NAME, M)
     found = False
@@ -67,10 +67,25 @@ def _trace(ctx, rep):
                 and loop.iter.func.attr == "items"):
             continue
         kname, vname = [norm(e) for e in loop.target.elts]
+        # the registry item is (function, predicates): read by index or unpacked in the loop target
+        fn_names, pat_names = {"{}[0]".format(vname)}, {"{}[1]".format(vname)}
+        item = loop.target.elts[1]
+        if isinstance(item, (ast.Tuple, ast.List)) and len(item.elts) == 2 and \
+                all(isinstance(e, ast.Name) for e in item.elts):
+            fn_names, pat_names = {item.elts[0].id}, {item.elts[1].id}
+            vname = "({}, {})".format(item.elts[0].id, item.elts[1].id)
+        else:
+            # unpacked by a statement of the loop body: FN, PAT = ITEM
+            for a_ in loop.body:
+                if isinstance(a_, ast.Assign) and len(a_.targets) == 1 and isinstance(a_.targets[0], ast.Tuple) \
+                        and len(a_.targets[0].elts) == 2 and norm(a_.value) == vname \
+                        and all(isinstance(e, ast.Name) for e in a_.targets[0].elts):
+                    fn_names.add(a_.targets[0].elts[0].id)
+                    pat_names.add(a_.targets[0].elts[1].id)
         for call in calls_in(loop, "apply_rule"):
             found = True
             args = [norm(a) for a in call.args]
-            ok_fn = len(args) >= 3 and args[1] == "{}[0]".format(vname)
+            ok_fn = len(args) >= 3 and args[1] in fn_names
             ok_nm = len(args) >= 3 and args[2] == kname
             rep.add("trace", cm.rel + "::_ctparse::applied function is the registry item's", cm.where(call),
                     ok_fn, "" if ok_fn else "apply_rule is given {} instead of {}[0]".format(args[1:2], vname))
@@ -78,7 +93,7 @@ def _trace(ctx, rep):
                     ok_nm, "" if ok_nm else "apply_rule is given the name {} instead of {}".format(args[2:3], kname))
             # the match windows come from the same item's predicates
             mr = [c for c in calls_in(loop, "_match_rule")]
-            ok_pat = bool(mr) and all(len(c.args) >= 2 and norm(c.args[1]) == "{}[1]".format(vname) for c in mr)
+            ok_pat = bool(mr) and all(len(c.args) >= 2 and norm(c.args[1]) in pat_names for c in mr)
             rep.add("trace", cm.rel + "::_ctparse::windows matched with the same item's predicates",
                     cm.where(loop), ok_pat, "" if ok_pat else "windows are matched with another rule's predicates")
     if not found:
@@ -120,7 +135,7 @@ def _apply_rule_semantics(ctx, rep, pm):
     for node in ast.walk(mtree):
         for ch in ast.iter_child_nodes(node):
             ch._parent = node
-    tm = ctx.mod("ctparse.types")
+    tm = ctx.imod("ctparse.types")
     st = State()
     st.frames.append({})
     ip.cur_mod.append(tm)
